@@ -143,6 +143,7 @@ type ClientSpec struct {
 	Cand        []CandOp    `json:"cand,omitempty"` // non-conformant upgrade candidate script (C08)
 	CandAtMs    int         `json:"candAt,omitempty"`
 	CandKind    string      `json:"candKind,omitempty"`
+	NoCL        bool        `json:"nocl,omitempty"` // data requests without Content-Length (chunked transfer)
 	AbortHS     bool        `json:"abortHandshake,omitempty"` // the client gives up while its handshake request is being served
 	Retry       bool        `json:"retry,omitempty"` // after a failed candidate, try a conformant upgrade later
 	RetryAtMs   int         `json:"retryAt,omitempty"`
@@ -154,11 +155,12 @@ type ClientMsg struct {
 	Size   int    `json:"size"`
 	Binary bool   `json:"bin,omitempty"`
 	Text   string `json:"text,omitempty"` // explicit payload (overrides ID/Size padding)
+	Chars  string `json:"chars,omitempty"` // padding character class (payloadForC)
 }
 
 type FaultSpec struct {
 	AtMs int    `json:"at"`
-	Kind string `json:"kind"` // abort-poll | abort-post | reset | eof | dup-poll | dup-post | silence | bad-packet | wrong-heartbeat | ws-error-frame
+	Kind string `json:"kind"` // abort-poll | abort-post | reset | eof | dup-poll | dup-post | silence | bad-packet | wrong-heartbeat | ws-error-frame | extra-pong
 	Arg  int    `json:"arg,omitempty"`
 }
 
@@ -208,6 +210,7 @@ type AppOp struct {
 	Opt      string `json:"opt,omitempty"` // "", nocompress, preencoded
 	CB       bool   `json:"cb,omitempty"`
 	UseWrite bool   `json:"write,omitempty"`
+	Chars    string `json:"chars,omitempty"` // padding character class (payloadForC); text messages only
 }
 
 // ReentSpec makes a listener call back into the session (C18).
